@@ -328,7 +328,9 @@ func c19Eval(r *core.Run, c *c19Case) {
 			}
 			switch c.Mismatch {
 			case "":
-				if cl.Line != f.CallLine {
+				if cl.Line == f.RecurLine && f.Recur > 0 {
+					r.Count("frames_of_recursive_calls", 1)
+				} else if cl.Line != f.CallLine {
 					report("line", fmt.Sprintf("frame %s: line %d, the call is on line %d", cl.Func.Name, cl.Line, f.CallLine))
 					return
 				}
